@@ -276,7 +276,7 @@ func (te *taskEnv) runOps(ops []Op) {
 
 func (te *taskEnv) runOp(i int, op *Op) {
 	env := te.env
-	rec := &OpRec{Task: te.idx, Idx: i, Op: op}
+	rec := &OpRec{Task: te.idx, Idx: i, Op: op, Sim: simrt.SelfID()}
 	env.Log.Ops = append(env.Log.Ops, rec)
 	rec.Inv = env.Log.Next()
 	rec.InvNow = env.Sim.Elapsed()
@@ -450,8 +450,21 @@ func (te *taskEnv) exec(op *Op, rec *OpRec) {
 			m["added-later"] = "x"
 		}
 	case "snap":
-		if ts, ok := te.scope(op.S).sc.(tally.TestScope); ok {
-			rec.Extra = takeSnapshot(ts.Snapshot(), op.N == 1)
+		if sv := te.scope(op.S); sv != nil {
+			if ts, ok := sv.sc.(tally.TestScope); ok {
+				sc := takeSnapshot(ts.Snapshot(), op.N == 1)
+				rec.Extra = sc
+				te.env.snaps[op.Ref] = sc
+			}
+		}
+	case "resnap":
+		// copy an earlier snapshot object again (has later recording changed it?)
+		if sc := te.env.snaps[op.Ref]; sc != nil && sc.raw != nil {
+			rec.Extra = takeSnapshot(sc.raw, false)
+		}
+	case "mutsnap":
+		if sc := te.env.snaps[op.Ref]; sc != nil && sc.raw != nil {
+			mutateSnapshot(sc.raw)
 		}
 	case "newcall":
 		s := te.scope(op.S)
